@@ -405,6 +405,31 @@ func (w *World) Field(pkg, typ, field string) *types.Var {
 			}
 		}
 	}
+	// promoted field: the field moved into an embedded struct of the same package (r.strictLastSlash is then
+	// r.settings.strictLastSlash; uses compile unchanged)
+	if ok {
+		var found []*types.Var
+		for i := 0; i < st.NumFields(); i++ {
+			ef := st.Field(i)
+			if !ef.Embedded() {
+				continue
+			}
+			et := ef.Type()
+			if pt, isPtr := et.(*types.Pointer); isPtr {
+				et = pt.Elem()
+			}
+			if est, isSt := et.Underlying().(*types.Struct); isSt {
+				for j := 0; j < est.NumFields(); j++ {
+					if est.Field(j).Name() == field {
+						found = append(found, est.Field(j))
+					}
+				}
+			}
+		}
+		if len(found) == 1 {
+			return found[0]
+		}
+	}
 	// renamed field: the pinned tree's field is gone and exactly one field that the pinned tree did not
 	// have carries the same type
 	if ok {
